@@ -106,6 +106,23 @@ type c05BlockCase struct {
 }
 
 var c05Block = hx.Define("c05.raw-comment", func(c *c05BlockCase, s *hx.Sub) *hx.Violation {
+	if c.Kind == "both" {
+		// a raw block and then a comment block with the same body in one template
+		if !selfContained(c.B, "endraw") || !selfContained(c.B, "endcomment") || strings.Contains(c.X, "{") || strings.Contains(c.Y, "{") {
+			s.Exclude()
+			return nil
+		}
+		src := c.X + "{% raw %}" + c.B + "{% endraw %}" + c.Y + "{% comment %}" + c.B + "{% endcomment %}" + c.X
+		o := hx.Render(src, map[string]any{"n": 1})
+		if o.Panic != nil {
+			return hx.V("panic@"+o.Panic.Site, "%q: %v", src, o.Panic)
+		}
+		if want := c.X + c.B + c.Y + c.X; !o.OK() || o.Out != want {
+			return hx.V("c05:raw-then-comment", "%q rendered %v, expected %q", src, o, want)
+		}
+		s.NTKey(src)
+		return nil
+	}
 	if !selfContained(c.B, "end"+c.Kind) || strings.Contains(c.X, "{") || strings.Contains(c.Y, "{{") || strings.Contains(c.Y, "{%") {
 		s.Exclude()
 		return nil
@@ -309,7 +326,7 @@ func TestC05(t *testing.T) {
 	bodies = func(cur []byte, n int) {
 		idx++
 		if env.Mine(idx) {
-			for _, kind := range []string{"raw", "comment"} {
+			for _, kind := range []string{"raw", "comment", "both"} {
 				blk.Run(&c05BlockCase{Kind: kind, X: xs[idx%len(xs)], B: string(cur), Y: xs[(idx/4)%len(xs)]})
 			}
 		}
@@ -323,7 +340,7 @@ func TestC05(t *testing.T) {
 	bodies(nil, env.Pick(4, 5))
 	bodyFrag := []string{"{{ n }}", "{{ n | no_such_filter }}", "{{ 1 | divided_by: 0 }}", "{% if %}", "{% nosuchtag %}", "{% for %}", "{% endif %}", "{% else %}", "{{ a b c }}", "{% assign x = %}", "text", " ", "\n", "é", "{%- x -%}", "{{- n -}}", "{% if true %}", "{% raw %}", "{% comment %}", "{{ 'a' }}", "}}", "%}", "-"}
 	col.Rapid(blk.Sub, env.PerShard(env.Pick(60000, 800000)), func(t *rapid.T) {
-		c := &c05BlockCase{Kind: rapid.SampledFrom([]string{"raw", "comment"}).Draw(t, "kind"),
+		c := &c05BlockCase{Kind: rapid.SampledFrom([]string{"raw", "comment", "both"}).Draw(t, "kind"),
 			X: rapid.SampledFrom([]string{"", "x", "line\n", " ", "}} %}"}).Draw(t, "x"),
 			B: strings.Join(rapid.SliceOfN(rapid.SampledFrom(bodyFrag), 0, 8).Draw(t, "b"), ""),
 			Y: rapid.SampledFrom([]string{"", "y", "\n", " }} ", "%}"}).Draw(t, "y")}
